@@ -9,7 +9,7 @@ from harness.props import sched_common as sc
 ID = 'C04'
 PROPS_FILE = 'Props/Props_C04.v'
 EXTRA_TARGETS = ['Sched/Case.vo']
-CONST_PARTS = ('sched', 'srcfill')
+CONST_PARTS = ('sched', 'srcfill', 'srcpass')
 FAIL = sc.BITS['c04']
 MISMATCH = sc.BITS['model_oracle'] | sc.BITS['dates'] | sc.BITS['rows']
 
